@@ -82,6 +82,17 @@ def requests():
     big = np.full((28, 21), np.nan)
     big[::2, 1::2] = R["r4"]["srf_flx"]
     R["r19"] = dict(R["r4"], srf_flx=big[::2, 1::2])
+    # the same numbers as they come out of binary files: big-endian float64 arrays (scipy.io.netcdf_file, numpy.fromfile('>f8'), a
+    # classic-format NetCDF read without conversion), read-only arrays (a memory-mapped or broadcast input), a big-endian source raster
+    R["r33"] = dict(R["r0"], profiles=tuple(np.asarray(a).astype(">f8") for a in R["r0"]["profiles"]))
+
+    def _ro(a):
+        a = np.array(a, copy=True)
+        a.flags.writeable = False
+        return a
+
+    R["r34"] = dict(R["r8"], z=_ro(R["r8"]["z"]), profiles=tuple(_ro(a) for a in R["r8"]["profiles"]), srf_flx=_ro(R["r8"]["srf_flx"]))
+    R["r35"] = dict(R["r4"], srf_flx=R["r4"]["srf_flx"].astype(">f8"))
     # float64 / int64 ndarrays where tuples are customary: reused by every repeat of the request in a history (a user loop keeps its arrays)
     R["r20"] = dict(R["r14"], meas_pt=np.array([30.0, 48.0]), domain=np.array([100.0, 112.0]), modes=np.array([6, 8]), levels=np.array([2, 8]))
     R["r21"] = dict(R["r2"], meas_pt=np.array([120.0, 80.0]), domain=np.array([240.0, 160.0]))
@@ -145,7 +156,8 @@ def requests():
 
 
 PAIRS = {"r1": "r0", "r3": "r2", "r9": "r8", "v_single": "v0", "r26": "r25", "r28": "r27", "r30": "r29", "r32": "r31"}  # single -> its double counterpart
-TWINS = {"r11": "r2", "r12": "r5", "r13": "r0", "r14": "r4", "r10": "r0", "r15": "r4", "r16": "r5", "r17": "r0", "r18": "r8", "r19": "r4", "r20": "r14", "r21": "r2"}
+TWINS = {"r11": "r2", "r12": "r5", "r13": "r0", "r14": "r4", "r10": "r0", "r15": "r4", "r16": "r5", "r17": "r0", "r18": "r8", "r19": "r4", "r20": "r14", "r21": "r2",
+         "r33": "r0", "r34": "r8", "r35": "r4"}
 VARIANTS = ["v_flxvals", "v_flxshape", "v_z", "v_u", "v_v", "v_kx", "v_ky", "v_kz", "v_domain_scaled", "v_domain_swapped", "v_levels_order",
             "v_levels_other", "v_levels_scalar", "v_modes", "v_halo", "v_halo_none", "v_measpt", "v_bg", "v_analytic", "v_footprint", "v_single"]
 TWINS.update({v: "v0" for v in VARIANTS})
@@ -153,7 +165,7 @@ for _nm in ("v_analytic", "v_footprint", "v_levels_order", "v_bg", "v_halo_none"
     PAIRS[_nm + "_single"] = _nm
     VARIANTS.append(_nm + "_single")
     TWINS[_nm + "_single"] = _nm
-SAME_VALUES = {"r15": "r4", "r16": "r5", "r17": "r0", "r18": "r8", "r19": "r4", "r20": "r14", "r21": "r2"}  # integer / list / numpy-integer spelling of the same argument values  # same geometry, other mode / other physics
+SAME_VALUES = {"r15": "r4", "r16": "r5", "r17": "r0", "r18": "r8", "r19": "r4", "r20": "r14", "r21": "r2", "r33": "r0", "r34": "r8", "r35": "r4"}  # integer / list / numpy-integer spelling of the same argument values  # same geometry, other mode / other physics
 
 
 def do_solve(req):
@@ -214,11 +226,17 @@ def need(nm):
                 r = subprocess.run([sys.executable, "-c", FRESH, nm, tmp], capture_output=True, text=True, timeout=900, cwd=wd)
             if r.returncode != 0 or not os.path.exists(tmp):
                 err = [l for l in r.stderr.splitlines() if "Error" in l and "thread" not in l]
-                raise RuntimeError(f"fresh-process solve of {nm} failed: {err[-3:]}")
+                if nm.split("@")[0] in SAME_VALUES and any("Error" in l for l in err):
+                    # a spelling the solver rejects in a fresh process: recorded as such (the in-process call must then be rejected too)
+                    np.savez(tmp, c=np.zeros(0), f=np.zeros(0), raised=np.array(str(err[-1:])))
+                else:
+                    raise RuntimeError(f"fresh-process solve of {nm} failed: {err[-3:]}")
             os.replace(tmp, out)
             _table["_fresh_runs"] = _table.get("_fresh_runs", 0) + 1
     with np.load(out) as z:
         _table[nm] = (z["c"], z["f"])
+        if "raised" in z.files:
+            _table[nm + "!raised"] = str(z["raised"])
     wis = os.path.join(wd, "fftw_wisdom.pkl")
     if "_foreign_wisdom" not in _table and os.path.exists(wis):
         _table["_foreign_wisdom"] = open(wis, "rb").read()
@@ -283,9 +301,9 @@ def run_case(case):
     rc.NUM_THREADS = 1
     wis = "fftw_wisdom.pkl"
     pending = []
-    LAYOUTS = ("r17", "r18", "r19", "r20", "r21")
+    LAYOUTS = ("r17", "r18", "r19", "r20", "r21", "r33", "r34", "r35")
     if not any(x in pool for x in LAYOUTS):
-        pool.append(str(rng.choice(LAYOUTS[:2])))
+        pool.append(str(rng.choice(["r17", "r18", "r33", "r34", "r35"])))
         pool.append(SAME_VALUES[pool[-1]])
         for nm_ in pool[-2:]:
             need(nm_)
@@ -363,10 +381,20 @@ def run_case(case):
             try:
                 c, f = do_solve(R[nm])
             except Exception as e:  # noqa
-                viol.append({"what": "solve_raises_after_history", "request": nm, "exc": repr(e)[:200], "history": hist[-12:], "state": st})
+                if nm + "!raised" in _table:
+                    counters["rejected_in_fresh_process_and_here"] = counters.get("rejected_in_fresh_process_and_here", 0) + 1
+                else:
+                    viol.append({"what": "solve_raises_after_history", "request": nm, "exc": repr(e)[:200], "history": hist[-12:], "state": st})
                 hist.append(nm + "!")
                 continue
             counters["solves"] += 1
+            if nm + "!raised" in _table:
+                # the very same call is rejected in a fresh process and answered here: what a call does depends on what ran before it
+                fin_ = bool(np.all(np.isfinite(c)) and np.all(np.isfinite(f)))
+                viol.append({"what": "call_rejected_in_a_fresh_process_is_answered_after_other_solves", "request": nm, "answer_finite": fin_,
+                             "fresh_process": _table[nm + "!raised"][:200], "counterpart": SAME_VALUES.get(nm), "history": hist[-12:], "state": st})
+                hist.append(nm)
+                continue
             # what a solve hands back belongs to the caller: keep private copies for the comparisons and overwrite the returned arrays
             # (a memo that hands out its own arrays would return the overwritten values next time)
             c_ret, f_ret = c, f
